@@ -1,12 +1,88 @@
 import CTM.Drive.Util
+import CTM.Model.Scratch
+import CTM.Generated.Resources
 open Lean
 
 namespace CTM.Drive.Scratch
-open CTM CTM.Drive
+open CTM CTM.Drive CTM.Scratch
 
-/-- ops of this module (stub: none yet) -/
-def handle : Handler := fun op _inp =>
+def asPath (j : Json) : R Path := asList asStr j
+def jPath (p : Path) : Json := jList jStr p
+
+def parseKind (j : Json) : R Kind := do
+  match ← asStr j with
+  | "dir" => return .dir
+  | "file" => return .file 0
+  | s => .error s!"kind expected, got {s}"
+
+def jKind : Option Kind → Json
+  | none => Json.null
+  | some .dir => jStr "dir"
+  | some (.file _) => jStr "file"
+
+def parseOp (j : Json) : R Op := do
+  let p ← asPath (← field j "p")
+  match ← asStr (← field j "op") with
+  | "mkdtemp" => return .mkdtemp p
+  | "mkstemp" => return .mkstemp p
+  | "mkdir" => return .mkdir p
+  | "write" => return .write p (← asNat (fieldD j "tok" (Json.num 1)))
+  | "openRO" => return .openRO p
+  | "listdir" => return .listdir p
+  | "unlink" => return .unlink p
+  | "rmdir" => return .rmdir p
+  | "rmtree" => return .rmtree p
+  | "move" => return .move p (← asPath (← field j "q"))
+  | s => .error s!"unknown fs op {s}"
+
+def parseDecl (j : Json) : R Decl := do
+  return { scratch := ← asList asPath (fieldD j "scratch" (Json.arr #[])),
+           outputs := ← asList asPath (fieldD j "outputs" (Json.arr #[])),
+           inputs := ← asList asPath (fieldD j "inputs" (Json.arr #[])) }
+
+def fsOf (init : List (Path × Kind)) : FS := fun q =>
+  match init.find? (fun e => e.1 == q) with
+  | some e => some e.2
+  | none => none
+
+def jOut (o : Out) : Json :=
+  jObj [("norm", jNats o.norm), ("ret", jNats o.ret), ("exc", jNats o.exc)]
+
+def skeletons : List (String × List CTM.Skeleton.Stmt) := [
+  ("runMapping", CTM.Generated.runMapping),
+  ("precompute", CTM.Generated.precompute),
+  ("validateH5ad", CTM.Generated.validateH5ad),
+  ("findMarkers", CTM.Generated.findMarkers),
+  ("typeAssignment", CTM.Generated.typeAssignment),
+  ("findMarkersFromPMask", CTM.Generated.findMarkersFromPMask),
+  ("createPValueMask", CTM.Generated.createPValueMask),
+  ("amalgamateH5ad", CTM.Generated.amalgamateH5ad),
+  ("pivotCsrH5ad", CTM.Generated.pivotCsrH5ad),
+  ("transposeByWayOfDisk", CTM.Generated.transposeByWayOfDisk),
+  ("transposeOnDiskV2", CTM.Generated.transposeOnDiskV2),
+  ("addSparseByGene", CTM.Generated.addSparseByGene),
+  ("roundXToIntegers", CTM.Generated.roundXToIntegers)]
+
+def handle : Handler := fun op inp =>
   match op with
+  | "scratch.replay" => some do
+      let init ← asList (asPair asPath parseKind) (← field inp "initial")
+      let ops ← asList parseOp (← field inp "ops")
+      let decl ← parseDecl (← field inp "decl")
+      let probe ← asList asPath (← field inp "probe")
+      let fs0 := fsOf init
+      let fs1 := exec fs0 ops
+      return jObj [
+        ("footprintOk", jBool (footprintOk decl ops)),
+        ("firstOutside", jOpt jNat (firstOutside decl [] ops 0)),
+        ("firstNotOk", jOpt jNat (firstNotOk fs0 ops 0)),
+        ("fresh", jList jPath (freshOf ops)),
+        ("final", jList (fun p => Json.arr #[jPath p, jKind (fs1 p)]) probe)]
+  | "scratch.skeleton" => some do
+      return jObj (skeletons.map (fun (n, s) => (n, jOut (postL s []))))
+  | "scratch.post" => some do
+      -- analysis of a skeleton given as JSON is not needed: the generated ones are linked in
+      .error "not supported"
   | _ => none
 
 end CTM.Drive.Scratch
